@@ -452,31 +452,32 @@ static const struct {
 static const int IDIMS[][3] = {{1, 3, 4}, {1, 2, 5}, {1, 6, 2}, {2, 3, 4}, {3, 2, 2}, {2, 2, 7}}; /* the tool requires every dimension >= 2 */
 #define NIDIMS 6
 
+/* one input of format fi and shape di, values depending on salt */
+typedef struct {
+    int    fi, di, np, nr, nc;
+    long   n;
+    double val[64], sp[8], sr[8], sc[8];
+} imp_t;
+
 static void
-case_import(long idx, void *ctx)
+imp_write(imp_t *I, const char *fname, int fi, int di, int salt)
 {
-    (void)ctx;
-    int fi = (int)(idx % NIMP), di = (int)(idx / NIMP);
-    int cfg[3] = {2, fi, di};
-    mc_set_config(cfg, 3, "family=hdfimport");
-    int np = IDIMS[di][0], nr = IDIMS[di][1], nc = IDIMS[di][2];
-    snprintf(g_case, sizeof g_case, "hdfimport %s input%s%s, %d x %d x %d", IMP[fi].fmt, IMP[fi].topt ? " " : "", IMP[fi].topt ? IMP[fi].topt : "", np, nr, nc);
-    mc_set_case("%s", g_case);
-    tc_workdir("C19", 2000 + idx);
-    long    n = (long)np * nr * nc;
-    double  val[64], sp[8], sr[8], sc[8], mx = -1e30, mn = 1e30;
-    int32   ot = IMP[fi].outtype;
+    I->fi = fi, I->di = di;
+    int np = I->np = IDIMS[di][0], nr = I->nr = IDIMS[di][1], nc = I->nc = IDIMS[di][2];
+    long    n = I->n = (long)np * nr * nc;
+    double *val = I->val, *sp = I->sp, *sr = I->sr, *sc = I->sc, mx = -1e30, mn = 1e30;
+    int32   ot    = IMP[fi].outtype;
     int     isint = ot == DFNT_INT32 || ot == DFNT_INT16 || ot == DFNT_INT8;
     for (long i = 0; i < n; i++) {
-        val[i] = isint ? (double)((i * 7) % 50 - 20) : (double)((i * 7) % 50 - 20) * 0.25;
+        val[i] = isint ? (double)((i * 7 + salt * 11) % 50 - 20) : (double)((i * 7 + salt * 11) % 50 - 20) * 0.25;
         if (val[i] > mx)
             mx = val[i];
         if (val[i] < mn)
             mn = val[i];
     }
     for (int i = 0; i < 8; i++)
-        sp[i] = 1 + i, sr[i] = isint ? 10 + 2 * i : 10 + 0.5 * i, sc[i] = isint ? 100 + 3 * i : 100 + 0.25 * i;
-    FILE *f = fopen(tc_path("in.dat"), "wb");
+        sp[i] = 1 + i + salt, sr[i] = isint ? 10 + 2 * i + salt : 10 + 0.5 * i + salt, sc[i] = isint ? 100 + 3 * i + salt : 100 + 0.25 * i + salt;
+    FILE *f = fopen(tc_path(fname), "wb");
     if (!strcmp(IMP[fi].fmt, "TEXT")) {
         fprintf(f, "TEXT\n%d %d %d\n%g %g\n", np, nr, nc, mx, mn);
         if (np > 1) {
@@ -528,15 +529,104 @@ case_import(long idx, void *ctx)
             PUT(val[i]);
     }
     fclose(f);
-    char *args[12];
-    int   na = 0;
-    args[na++] = "in.dat";
+}
+
+/* the input file name followed by the options that belong to it */
+static int
+imp_args(char **args, int na, const char *fname, int fi)
+{
+    args[na++] = (char *)fname;
     if (IMP[fi].topt && !strcmp(IMP[fi].topt, "-n"))
         args[na++] = "-n";
     else if (IMP[fi].topt) {
         args[na++] = "-t";
         args[na++] = (char *)IMP[fi].topt;
     }
+    return na;
+}
+
+/* data set number k of the output against input I */
+static void
+imp_check(int32 S, int k, const imp_t *I)
+{
+    int   np = I->np, nr = I->nr, nc = I->nc;
+    int32 ot = IMP[I->fi].outtype;
+    int32 s  = S == FAIL ? FAIL : SDselect(S, k);
+    char  nm[H4_MAX_NC_NAME + 1];
+    int32 rk = 0, dm[H4_MAX_VAR_DIMS] = {0}, nt = 0, nat = 0, st[3] = {0, 0, 0};
+    /* (coordinate variables of earlier data sets are data sets of their own in SD's numbering: step over them) */
+    if (s == FAIL || SDgetinfo(s, nm, &rk, dm, &nt, &nat) == FAIL)
+        mc_violation("hdfimport:no-dataset", "%s: the output file holds no readable data set #%d", g_case, k);
+    else {
+        int wr = np > 1 ? 3 : 2;
+        int okshape = rk == wr && (wr == 3 ? (dm[0] == np && dm[1] == nr && dm[2] == nc) : (dm[0] == nr && dm[1] == nc));
+        if (!okshape || nt != ot)
+            mc_violation("hdfimport:shape-or-type", "%s: output data set #%d has rank %d dims %d,%d,%d type %d; expected rank %d dims %s%d,%d type %d", g_case, k, (int)rk,
+                         (int)dm[0], (int)dm[1], (int)dm[2], (int)nt, wr, wr == 3 ? "2+," : "", nr, nc, (int)ot);
+        else {
+            uint8 buf[64 * 8 + 8];
+            if (SDreaddata(s, st, NULL, dm, buf) == FAIL)
+                mc_violation("hdfimport:unreadable", "%s: output data set #%d cannot be read", g_case, k);
+            else
+                for (long i = 0; i < I->n; i++)
+                    if (as_double(nt, buf, i) != I->val[i]) {
+                        mc_violation("hdfimport:value", "%s: element %ld of output data set #%d is %.10g, the input says %.10g", g_case, i, k, as_double(nt, buf, i), I->val[i]);
+                        break;
+                    }
+            /* axis scales */
+            for (int d = 0; d < rk; d++) {
+                int32         did = SDgetdimid(s, d), sz, snt = 0, sna;
+                char          dn[H4_MAX_NC_NAME + 1];
+                uint8         sb[8 * 8 + 8];
+                const double *want = wr == 3 ? (d == 0 ? I->sp : d == 1 ? I->sr : I->sc) : (d == 0 ? I->sr : I->sc);
+                SDdiminfo(did, dn, &sz, &snt, &sna);
+                if (snt && SDgetdimscale(did, sb) != FAIL)
+                    for (int i = 0; i < dm[d]; i++)
+                        if (as_double(snt, sb, i) != want[i]) {
+                            mc_violation("hdfimport:scale", "%s: scale value %d of dimension %d of data set #%d is %.10g, the input says %.10g", g_case, i, d, k,
+                                         as_double(snt, sb, i), want[i]);
+                            break;
+                        }
+            }
+        }
+    }
+    if (s != FAIL)
+        SDendaccess(s);
+}
+
+/* index of the k-th data set that is not a coordinate variable */
+static int
+nth_dataset(int32 S, int k)
+{
+    int32 nds = 0, nat = 0;
+    if (S == FAIL || SDfileinfo(S, &nds, &nat) == FAIL)
+        return k;
+    for (int i = 0, seen = 0; i < nds; i++) {
+        int32 s = SDselect(S, i);
+        int   c = s != FAIL && SDiscoordvar(s);
+        if (s != FAIL)
+            SDendaccess(s);
+        if (!c && seen++ == k)
+            return i;
+    }
+    return (int)nds; /* none: SDselect will fail and be reported */
+}
+
+static void
+case_import(long idx, void *ctx)
+{
+    (void)ctx;
+    int fi = (int)(idx % NIMP), di = (int)(idx / NIMP);
+    int cfg[3] = {2, fi, di};
+    mc_set_config(cfg, 3, "family=hdfimport");
+    int np = IDIMS[di][0], nr = IDIMS[di][1], nc = IDIMS[di][2];
+    snprintf(g_case, sizeof g_case, "hdfimport %s input%s%s, %d x %d x %d", IMP[fi].fmt, IMP[fi].topt ? " " : "", IMP[fi].topt ? IMP[fi].topt : "", np, nr, nc);
+    mc_set_case("%s", g_case);
+    tc_workdir("C19", 2000 + idx);
+    imp_t I;
+    imp_write(&I, "in.dat", fi, di, 0);
+    char *args[12];
+    int   na   = imp_args(args, 0, "in.dat", fi);
     args[na++] = "-o";
     args[na++] = "out.hdf";
     args[na]   = NULL;
@@ -546,50 +636,55 @@ case_import(long idx, void *ctx)
         if (rc != 0)
             mc_violation("hdfimport:exit-status", "%s: exits %d: %.400s", g_case, rc, out);
         else {
-            int32 S = SDstart(tc_path("out.hdf"), DFACC_READ), s = S == FAIL ? FAIL : SDselect(S, 0);
-            char  nm[H4_MAX_NC_NAME + 1];
-            int32 rk = 0, dm[H4_MAX_VAR_DIMS] = {0}, nt = 0, nat = 0, st[3] = {0, 0, 0};
-            if (s == FAIL || SDgetinfo(s, nm, &rk, dm, &nt, &nat) == FAIL)
-                mc_violation("hdfimport:no-dataset", "%s: the output file holds no readable data set", g_case);
-            else {
-                int wr = np > 1 ? 3 : 2;
-                int okshape = rk == wr && (wr == 3 ? (dm[0] == np && dm[1] == nr && dm[2] == nc) : (dm[0] == nr && dm[1] == nc));
-                if (!okshape || nt != ot)
-                    mc_violation("hdfimport:shape-or-type", "%s: output data set has rank %d dims %d,%d,%d type %d; expected rank %d dims %s%d,%d type %d", g_case, (int)rk, (int)dm[0],
-                                 (int)dm[1], (int)dm[2], (int)nt, wr, wr == 3 ? "2+," : "", nr, nc, (int)ot);
-                else {
-                    uint8 buf[64 * 8 + 8];
-                    if (SDreaddata(s, st, NULL, dm, buf) == FAIL)
-                        mc_violation("hdfimport:unreadable", "%s: output data cannot be read", g_case);
-                    else
-                        for (long i = 0; i < n; i++)
-                            if (as_double(nt, buf, i) != val[i]) {
-                                mc_violation("hdfimport:value", "%s: element %ld of the output is %.10g, the input says %.10g", g_case, i, as_double(nt, buf, i), val[i]);
-                                break;
-                            }
-                    /* axis scales */
-                    for (int d = 0; d < rk; d++) {
-                        int32   did = SDgetdimid(s, d), sz, snt = 0, sna;
-                        char    dn[H4_MAX_NC_NAME + 1];
-                        uint8   sb[8 * 8 + 8];
-                        double *want = wr == 3 ? (d == 0 ? sp : d == 1 ? sr : sc) : (d == 0 ? sr : sc);
-                        SDdiminfo(did, dn, &sz, &snt, &sna);
-                        if (snt && SDgetdimscale(did, sb) != FAIL)
-                            for (int i = 0; i < dm[d]; i++)
-                                if (as_double(snt, sb, i) != want[i]) {
-                                    mc_violation("hdfimport:scale", "%s: scale value %d of dimension %d is %.10g, the input says %.10g", g_case, i, d, as_double(snt, sb, i), want[i]);
-                                    break;
-                                }
-                    }
-                }
-            }
-            if (s != FAIL)
-                SDendaccess(s);
+            int32 S = SDstart(tc_path("out.hdf"), DFACC_READ);
+            imp_check(S, nth_dataset(S, 0), &I);
             if (S != FAIL)
                 SDend(S);
             if (idx % 13 == 0)
                 mc_sample("%s", g_case);
             mc_count("imports_compared", 1);
+        }
+    }
+    free(out);
+    tc_cleanup();
+}
+
+/* two inputs in one invocation: every ordered pair of input formats; each input keeps its own options and must come
+   out as its own data set (the tool carries per-input state from one input to the next) */
+static void
+case_import_pair(long idx, void *ctx)
+{
+    (void)ctx;
+    int f1 = (int)(idx % NIMP), f2 = (int)(idx / NIMP % NIMP);
+    int cfg[3] = {4, f1, f2};
+    mc_set_config(cfg, 3, "family=hdfimport-two-inputs");
+    snprintf(g_case, sizeof g_case, "hdfimport of two inputs in one call: %s%s%s (2x3x4) then %s%s%s (3x4)", IMP[f1].fmt, IMP[f1].topt ? " " : "", IMP[f1].topt ? IMP[f1].topt : "",
+             IMP[f2].fmt, IMP[f2].topt ? " " : "", IMP[f2].topt ? IMP[f2].topt : "");
+    mc_set_case("%s", g_case);
+    tc_workdir("C19", 5000 + idx);
+    imp_t A, B;
+    imp_write(&A, "in1.dat", f1, 3, 1);
+    imp_write(&B, "in2.dat", f2, 0, 2);
+    char *args[16];
+    int   na   = imp_args(args, 0, "in1.dat", f1);
+    na         = imp_args(args, na, "in2.dat", f2);
+    args[na++] = "-o";
+    args[na++] = "out.hdf";
+    args[na]   = NULL;
+    char *out = NULL;
+    int   rc  = tc_run("hdfimport", args, &out);
+    if (!tc_tool_crashed("hdfimport", rc, out, g_case)) {
+        if (rc != 0)
+            mc_violation("hdfimport:exit-status", "%s: exits %d: %.400s", g_case, rc, out);
+        else {
+            int32 S = SDstart(tc_path("out.hdf"), DFACC_READ);
+            imp_check(S, nth_dataset(S, 0), &A);
+            imp_check(S, nth_dataset(S, 1), &B);
+            if (S != FAIL)
+                SDend(S);
+            if (idx % 29 == 0)
+                mc_sample("%s", g_case);
+            mc_count("import_pairs_compared", 1);
         }
     }
     free(out);
@@ -617,6 +712,8 @@ C19_main(const char *tier, const char *replay)
             case_hdp(cfg[1], NULL);
         else if (cfg[0] == 3)
             case_hdiff_special(cfg[1], NULL);
+        else if (cfg[0] == 4)
+            case_import_pair(cfg[1] + (long)NIMP * cfg[2], NULL);
         else
             case_import(cfg[1] + (long)NIMP * cfg[2], NULL);
         printf("replay C19: %s (files kept in %s)\n", g_case, tc_work);
@@ -624,7 +721,7 @@ C19_main(const char *tier, const char *replay)
     }
     mc_rule("hdiff: 6 generated file kinds x (reflexive + equal copy + every single-point mutation of the generator: first/middle/last element of every SDS, Vdata field and image, "
             "every attribute element class, dimension scales, added and removed objects) in both argument orders = %d cases; hdp: every SDS, image and Vdata of 6 file kinds; "
-            "hdfimport: %d input formats x %d shapes",
+            "hdfimport: %d input formats x %d shapes, and every ordered pair of input formats given in one invocation",
             NMC, NIMP, NIDIMS);
     mc_round_begin("hdiff");
     mc_foreach(NMC, case_hdiff, NULL, 1, 300);
@@ -637,6 +734,9 @@ C19_main(const char *tier, const char *replay)
     mc_round_end();
     mc_round_begin("hdfimport");
     mc_foreach((long)NIMP * NIDIMS, case_import, NULL, 1, 300);
+    mc_round_end();
+    mc_round_begin("hdfimport: two inputs in one invocation");
+    mc_foreach((long)NIMP * NIMP, case_import_pair, NULL, 1, 300);
     mc_round_end();
     return 0;
 }
